@@ -188,7 +188,7 @@ Proof. intros o k [ND W]. rewrite canon_eq. cbn [set_kparams k_params].
 Theorem canonicalize_idempotent : forall o k, params_wf k -> canonicalize o (canonicalize o k) = canonicalize o k.
 Proof. intros o k W. pose proof (canonicalize_sorts_params o k W) as S.
   rewrite canon_eq in S. cbn [set_kparams k_params] in S.
-  rewrite !canon_eq. cbn [set_kparams k_params k_kty k_kid k_alg k_ops k_base_iv].
+  rewrite !canon_eq. unfold set_kparams. cbn [k_params k_kty k_kid k_alg k_ops k_base_iv].
   f_equal. apply sort_sorted_id; auto. apply ord_cmp_antisym. Qed.
 
 (* ---------- the emitted map ---------- *)
@@ -197,10 +197,10 @@ Lemma emit_rest_ok ps : forall seen acc, NoDup (map fst ps) -> (forall l, In l (
 Proof. induction ps as [|[l x] r IH]; intros seen acc ND DJ; cbn [emit_rest map fst snd] in *.
   - now rewrite app_nil_r.
   - destruct (label_mem l seen) eqn:M.
-    { apply label_mem_In in M. exfalso. apply (DJ l); auto. }
+    { apply label_mem_In in M. exfalso. apply (DJ l); [now left|exact M]. }
     inversion ND as [|? ? NI ND']; subst. rewrite IH; auto.
     + now rewrite <- app_assoc.
-    + intros l0 I [<-|I2]; [contradiction|]. apply (DJ l0); auto. Qed.
+    + intros l0 I [<-|I2]; [contradiction|]. apply (DJ l0); [now right|exact I2]. Qed.
 
 Lemma seed_seen_ints m : forall zs, map fst m = map VInt zs -> Forall (fun z => 1 <= z <= 5) zs ->
   seed_seen m = Ok (map LInt zs).
@@ -219,9 +219,11 @@ Definition typed_entries (k : cose_key) : list (value * value) :=
 
 Lemma typed_entries_shape k : exists zs,
   map fst (typed_entries k) = map VInt zs /\ StronglySorted Z.lt zs /\ Forall (fun z => 1 <= z <= 5) zs.
-Proof. unfold typed_entries, bytes_entry, opt_entry.
+Proof. exists ([1] ++ (if isnil (k_kid k) then [] else [2]) ++ (if issome (k_alg k) then [3] else [])
+                ++ (if isnil (k_ops k) then [] else [4]) ++ (if isnil (k_base_iv k) then [] else [5])).
+  unfold typed_entries, bytes_entry, opt_entry, issome.
   destruct (isnil (k_kid k)), (k_alg k), (isnil (k_ops k)), (isnil (k_base_iv k));
-  (eexists; split; [reflexivity|split; repeat constructor; lia]). Qed.
+  (split; [reflexivity|split; cbn [app]; repeat constructor; lia]). Qed.
 
 Lemma CoseKey_to_value_shape k : NoDup (map fst (k_params k)) ->
   (forall e, In e (k_params k) -> forall z, fst e = LInt z -> ~ (1 <= z <= 5)) ->
